@@ -43,8 +43,29 @@ def one(sid, tier, budget, all_props):
     return sid, meta
 
 
+def snapshot():
+    """Frozen copy of the machinery for this batch (removed at the end)."""
+    import shutil
+    import tempfile
+    root = tempfile.mkdtemp(prefix="verif-snap-", dir="/dev/shm" if os.path.isdir("/dev/shm") else None)
+    for d in ("dst", "corpus"):
+        shutil.copytree(os.path.join(VERIF, d), os.path.join(root, d), ignore=shutil.ignore_patterns("__pycache__"))
+    shutil.copyfile(os.path.join(VERIF, "known_findings.txt"), os.path.join(root, "known_findings.txt"))
+    return root
+
+
 def main():
     a = sys.argv[1:]
+    snap = snapshot()
+    os.environ["VERIF_ROOT"] = snap
+    try:
+        _main(a)
+    finally:
+        import shutil
+        shutil.rmtree(snap, ignore_errors=True)
+
+
+def _main(a):
     only = set(a[a.index("--only") + 1].split(",")) if "--only" in a else None
     tier = a[a.index("--tier") + 1] if "--tier" in a else "quick"
     budget = int(a[a.index("--budget") + 1]) if "--budget" in a else 50
